@@ -11,6 +11,7 @@ import (
 	"math"
 	mrand "math/rand/v2"
 	"net/http"
+	"reflect"
 	"strconv"
 	"strings"
 	"testing"
@@ -95,6 +96,18 @@ func genRollout(rng *mrand.Rand, n int, tier string, w *bufio.Writer) {
 	}
 }
 
+// splitPointOf reads the controller's split point by reflection, so that the harness does not
+// depend on the field being exported.
+func splitPointOf(rc *RolloutController) float64 {
+	v := reflect.ValueOf(rc).Elem()
+	for i := 0; i < v.NumField(); i++ {
+		if strings.EqualFold(v.Type().Field(i).Name, "PercentageSplitPoint") && v.Field(i).Kind() == reflect.Float64 {
+			return v.Field(i).Float()
+		}
+	}
+	return math.NaN()
+}
+
 func runRollout(t *testing.T, fx *fixtures, c verifCase, w *bufio.Writer) {
 	fmt.Fprintln(w, c.header)
 	for _, line := range c.lines {
@@ -110,7 +123,7 @@ func runRollout(t *testing.T, fx *fixtures, c verifCase, w *bufio.Writer) {
 			if p < 0 {
 				fmt.Fprintln(w, "pct neg")
 			} else {
-				fmt.Fprintf(w, "pct %s\n", strconv.FormatFloat(math.Floor(rc.PercentageSplitPoint), 'f', 0, 64))
+				fmt.Fprintf(w, "pct %s\n", strconv.FormatFloat(math.Floor(splitPointOf(rc)), 'f', 0, 64))
 			}
 		case "uses":
 			p, _ := strconv.Atoi(kv["p"])
